@@ -55,12 +55,15 @@ SIG = dict(mom=MomentumSignal, sma=SMASignal, vol=VolatilitySignal)
 class MomentumAlpha(AlphaModel):
     """weights from N-period momentum: the positive part for long-only sizing, the raw value otherwise"""
 
-    def __init__(self, signals, universe, lookback, long_only):
-        self.signals, self.universe, self.lookback, self.long_only = signals, universe, lookback, long_only
+    def __init__(self, signals, universe, lookback, long_only, walk=None):
+        self.signals, self.universe, self.lookback, self.long_only, self.walk = signals, universe, lookback, long_only, walk
 
     def __call__(self, dt):
         w = collections.OrderedDict()
-        for a in self.universe.get_assets(dt):
+        # with walk='signal' the weights come out in the order of the signal's own asset list (as the shipped momentum
+        # examples do), which for assets admitted at one instant is not a run-independent order
+        names = list(self.signals['s0'].assets) if self.walk == 'signal' else self.universe.get_assets(dt)
+        for a in names:
             try:
                 m = float(self.signals['s0'](a, self.lookback))
             except KeyError:
@@ -156,7 +159,7 @@ def _run_session(case, data_dir=None, data_source=None, keep=False, universe=Non
     own_dir = None
     if data_source is None:
         if data_dir is None:
-            own_dir = data_dir = tempfile.mkdtemp(prefix='qsv_k7_')
+            own_dir = data_dir = common.scratch_dir('k7')
             k2.write_csvs(case['market'], data_dir)
         data_source = CSVDailyBarDataSource(data_dir, None, adjust_prices=case.get('adjust', True),
                                             csv_symbols=sorted(case['market']))
@@ -183,7 +186,7 @@ def _run_session(case, data_dir=None, data_source=None, keep=False, universe=Non
         elif 'single' in al:
             alpha = SingleSignalAlphaModel(uni, signal=al['single'])
         elif 'momentum' in al:
-            alpha = MomentumAlpha(signals, uni, al['momentum'], case['long_only'])
+            alpha = MomentumAlpha(signals, uni, al['momentum'], case['long_only'], al.get('walk'))
         else:
             alpha = InvVolAlpha(signals, uni, al['invvol'])
         kw = {}
@@ -201,7 +204,7 @@ def _run_session(case, data_dir=None, data_source=None, keep=False, universe=Non
                 t_start = t_start + pd.Timedelta(microseconds=case['start_us'])
             bt = BacktestTradingSession(t_start, ts(case['end']), uni, alpha, signals=signals,
                                         initial_cash=case['cash'], rebalance=case['rebalance'], long_only=case['long_only'],
-                                        fee_model=fee, burn_in_dt=None if case.get('burn') is None else ts(case['burn']),
+                                        fee_model=fee, burn_in_dt=None if case.get('burn') is None else ts_in(case['burn'], case.get('burn_tz')),
                                         data_handler=dh, **kw)
         except (ValueError, KeyError, TypeError) as e:
             rec['construct'] = type(e).__name__
